@@ -698,9 +698,9 @@ func c16Sessions(c *Ctx) {
 		key := fnName(fn) + "/" + s.Kind
 		switch x := s.Instr.(type) {
 		case *ssa.MapUpdate:
-			c.check(fn.Name() == "addSession" && strip(x.Key) == ssa.Value(fn.Params[1]), "C16.R5", key, x.Pos(), "addSession records exactly the given session", "sessions are recorded outside addSession or under another key")
+			c.check(baseName(fn) == "addSession" && strip(x.Key) == ssa.Value(fn.Params[1]), "C16.R5", key, x.Pos(), "addSession records exactly the given session", "sessions are recorded outside addSession or under another key")
 		case *ssa.Call:
-			c.check(fn.Name() == "removeSession" && strip(x.Call.Args[1]) == ssa.Value(fn.Params[1]), "C16.R5", key, x.Pos(), "removeSession forgets exactly the given session", "sessions are deleted outside removeSession or under another key: shedding/bookkeeping can drop a live session's record")
+			c.check(baseName(fn) == "removeSession" && strip(x.Call.Args[1]) == ssa.Value(fn.Params[1]), "C16.R5", key, x.Pos(), "removeSession forgets exactly the given session", "sessions are deleted outside removeSession or under another key: shedding/bookkeeping can drop a live session's record")
 		case *ssa.Store:
 			c.check(strings.HasPrefix(fn.Name(), "New"), "C16.R5", key, x.Pos(), "the session set is created by the constructor", "the session set is replaced outside the constructor")
 		}
